@@ -230,6 +230,37 @@ def build(ch, shape):
     return {'m': m, 'text': mast.render(m)}
 
 
+def shared_alias_cases():
+    """Every alternative of a disjunctive activator (or of the split event) binds the SAME alias, and later events - the
+    terminator, the other pattern event - refer to it: the alias stays bound in every member, so the split must happen."""
+    from hplverif.mast import binop, own
+
+    def ref(a):
+        return binop('>', own('x'), ('field', ('var', a), 'x'))
+
+    for sk in ('after', 'after_until'):
+        for w in (2, 3):
+            act = ('disj', tuple(('ev', f'p{i}', 'M', None if i else binop('>', own('x'), ('lit', 'int', '0'))) for i in range(w)))
+            for pk in PATTERN_KINDS:
+                for term_ref in ((False, True) if sk == 'after_until' else (False,)):
+                    term = ('ev', 'q', None, ref('M') if term_ref else None) if sk == 'after_until' else None
+                    for beh_ref in (False, True):
+                        beh = ('ev', 'b', None, ref('M') if beh_ref else None)
+                        trig = None if pk in ('existence', 'absence') else ('ev', 'a', None, ref('M') if not beh_ref else None)
+                        yield ('prop', (), ('scope', sk, act, term), ('pat', pk, trig, beh, None))
+    # the split event of the pattern with a shared alias that the other event uses
+    for pk, split_is_trigger in (('response', True), ('requirement', False), ('prevention', False)):
+        for w in (2, 3):
+            alts = ('disj', tuple(('ev', f'{"a" if split_is_trigger else "b"}{i}', 'S', None) for i in range(w)))
+            if pk == 'response':
+                yield ('prop', (), ('scope', 'globally', None, None), ('pat', pk, alts, ('ev', 'b', None, ref('S')), ('2', 's')))
+            elif pk == 'requirement':
+                yield ('prop', (), ('scope', 'globally', None, None), ('pat', pk, ('ev', 'a', None, ref('S')), alts, None))
+
+
+PATTERN_KINDS = ('existence', 'absence', 'response', 'prevention', 'requirement')
+
+
 def build_history(ch):
     shapes = gen.all_shapes()
     shape = shapes[ch.int(0, len(shapes) - 1)]
@@ -305,6 +336,16 @@ def shard(ctx, shard_no, nshards, per_shape):
 
     with ctx.timed('history'):
         core.run_hypothesis(ctx, 'history', from_tape(build_history), body_hist, 400 if ctx.tier == 'quick' else 2500)
+
+    with ctx.timed('shared-alias-family'):
+        for m in shared_alias_cases():
+            inp = {'m': m, 'text': mast.render(m)}
+            try:
+                r = sub_canonical(inp)
+            except Violation as v:
+                ctx.report(v)
+                r = 'violation'
+            ctx.case(inp['text'], r == 'split', 'shared-alias:' + r)
 
     with ctx.timed('vacuity-table'):
         stride = 8 if ctx.tier == 'quick' else 1
